@@ -18,11 +18,15 @@ void *realloc(void *p, size_t n)
   void *q = malloc(n);
   __CPROVER_assume(q != 0);
   if (p) {
-    /* explicit copy loops with a trip count that is constant after symex (object sizes are known):
-     * CBMC's memcpy model with a symbolic length produced spurious values here (design probe) */
-    size_t o = __CPROVER_OBJECT_SIZE(p), i;
-    if ((o & 7) == 0) { for (i = 0; i < o / 8; i++) if (8 * i + 8 <= n) ((unsigned long *) q)[i] = ((const unsigned long *) p)[i]; }
-    else { for (i = 0; i < o; i++) if (i < n) ((char *) q)[i] = ((const char *) p)[i]; }
+    /* set-up phase only: old and new sizes are concrete here, so CBMC's array primitives are exact (their defect
+     * concerns symbolic lengths); first and last byte are re-checked as a guard against a silent miscopy */
+    size_t o = __CPROVER_OBJECT_SIZE(p), m = o < n ? o : n;
+    if (m) {
+      char tmp[m];
+      __CPROVER_array_copy(tmp, (const char *) p);
+      __CPROVER_array_replace((char *) q, tmp);
+      __CPROVER_assert(((const char *) q)[0] == ((const char *) p)[0] && ((const char *) q)[m - 1] == ((const char *) p)[m - 1], "VP_MODEL: realloc copy sanity");
+    }
     free(p);
   }
   return q;
@@ -54,9 +58,9 @@ void *memcpy(void *dst, const void *src, size_t n)
 #pragma CPROVER check disable "signed-overflow"
     if ((n & 7) == 0 && (__CPROVER_POINTER_OFFSET(dst) & 7) == 0 && (__CPROVER_POINTER_OFFSET(src) & 7) == 0) {
       /* word-wise: keeps pointer-typed fields whole instead of splitting them into bytes */
-      for (size_t i = 0; i < VP_MEM_K / 8; i++) if (8 * i < n) ((unsigned long *) dst)[i] = ((const unsigned long *) src)[i];
+      for (size_t i = 0; i < VP_MEM_K / 8 && 8 * i < n; i++) ((unsigned long *) dst)[i] = ((const unsigned long *) src)[i];
     } else
-    for (size_t i = 0; i < VP_MEM_K; i++) if (i < n) ((char *) dst)[i] = ((const char *) src)[i];
+    for (size_t i = 0; i < VP_MEM_K && i < n; i++) ((char *) dst)[i] = ((const char *) src)[i];
 #pragma CPROVER check pop
   } else {
     char src_n[n];
@@ -78,11 +82,11 @@ void *memmove(void *dst, const void *src, size_t n)
 #pragma CPROVER check disable "pointer-overflow"
 #pragma CPROVER check disable "signed-overflow"
     if ((n & 7) == 0 && (__CPROVER_POINTER_OFFSET(dst) & 7) == 0 && (__CPROVER_POINTER_OFFSET(src) & 7) == 0) {
-      for (size_t i = 0; i < VP_MEM_K / 8; i++) if (8 * i < n) wtmp[i] = ((const unsigned long *) src)[i];
-      for (size_t i = 0; i < VP_MEM_K / 8; i++) if (8 * i < n) ((unsigned long *) dst)[i] = wtmp[i];
+      for (size_t i = 0; i < VP_MEM_K / 8 && 8 * i < n; i++) wtmp[i] = ((const unsigned long *) src)[i];
+      for (size_t i = 0; i < VP_MEM_K / 8 && 8 * i < n; i++) ((unsigned long *) dst)[i] = wtmp[i];
     } else {
-    for (size_t i = 0; i < VP_MEM_K; i++) if (i < n) tmp[i] = ((const char *) src)[i];
-    for (size_t i = 0; i < VP_MEM_K; i++) if (i < n) ((char *) dst)[i] = tmp[i];
+    for (size_t i = 0; i < VP_MEM_K && i < n; i++) tmp[i] = ((const char *) src)[i];
+    for (size_t i = 0; i < VP_MEM_K && i < n; i++) ((char *) dst)[i] = tmp[i];
     }
 #pragma CPROVER check pop
   } else {
@@ -102,7 +106,7 @@ void *memset(void *s, int c, size_t n)
 #pragma CPROVER check disable "bounds"
 #pragma CPROVER check disable "pointer-overflow"
 #pragma CPROVER check disable "signed-overflow"
-    for (size_t i = 0; i < VP_MEM_K; i++) if (i < n) ((char *) s)[i] = (char) c;
+    for (size_t i = 0; i < VP_MEM_K && i < n; i++) ((char *) s)[i] = (char) c;
 #pragma CPROVER check pop
   } else {
     unsigned char s_n[n];
